@@ -719,6 +719,11 @@ qtreetbl_obj_t qtreetbl_find_nearest(qtreetbl_t *tbl, const void *name,
     }
 
     qtreetbl_lock(tbl);
+    if (tbl->root != NULL) {
+        // the root has no parent; a link left over from an earlier traversal
+        // (made when this node was not yet the root) must not be followed.
+        tbl->root->next = NULL;
+    }
     qtreetbl_obj_t *obj, *lastobj;
     for (obj = lastobj = tbl->root; obj != NULL;) {
         int cmp = tbl->compare(name, namesize, obj->name, obj->namesize);
